@@ -136,4 +136,26 @@ inline std::vector<Point64> samplePoints(const Paths64& pp, bool closed, double 
   return pts;
 }
 
+// KF-ENG-a recogniser.  evalAt(delta') re-runs the offset with a perturbed delta and judges THE SAME sample against the
+// expectation re-derived for delta': -1 not judged (in the band), 0 agrees, 1 mismatch.  A defect of the offsetter
+// (wrong sign, factor, normal, cap, state carried over) is systematic in delta; the clean-up union's lost-hole /
+// filled-pocket artefact needs two outline parts within a unit or two of touching and is isolated in delta.
+// The artefact was measured to persist over a window of delta about 2 units wide (from the moment a cap starts to
+// overlap another stroke until the overlap is a couple of units deep).
+// Isolated = at least 3 of the 10 perturbed runs are judged, at most half of those still mismatch, and the judged
+// runs at the largest perturbations (+-3.7, +-6.1) do not mismatch.
+inline bool isolatedInDelta(double absDelta, double minDelta, const std::function<int(double)>& evalAt) {
+  int judged = 0, bad = 0;
+  bool farBad = false;
+  for (double pd : {0.37, -0.37, 0.73, -0.73, 1.9, -1.9, 3.7, -3.7, 6.1, -6.1}) {
+    double d2 = absDelta + pd;
+    if (d2 < minDelta) continue;
+    int r = evalAt(d2);
+    if (r < 0) continue;
+    ++judged;
+    if (r > 0) { ++bad; if (std::fabs(pd) > 3) farBad = true; }
+  }
+  return judged >= 3 && bad * 2 <= judged && !farBad;
+}
+
 }  // namespace OFS
